@@ -172,12 +172,13 @@ Qed.
 (* advance_frame of a sparse-saving session keeps the timeline invariant *)
 Lemma sparse_advance_timeline : forall p gs g w d p' o r G,
   advance predict p = Ok (p', o, r) ->
-  QSg true w d p gs -> CIs w p g -> Forall (fun c => cs_last c < I32MAX) (ps_status p) -> TI p gs G ->
+  QSg true w d p gs -> CIs w p g -> Forall (fun c => cs_last c < I32MAX) (ps_status p) ->
+  Forall (fun c => cs_last c + 1 < I32MAX) (ps_status p) -> TI p gs G ->
   exists gs', QSg true w d p' gs' /\ TI p' gs' (replay_hist G (o_requests o)) /\
     hist_step d (ps_pending p) (local_handles p) gs gs' /\ ps_kinds p' = ps_kinds p /\ spec_step p gs o p' /\
     Forall (truthful_lt (s_current (ps_sync p')) gs') (adv_frames G (o_requests o)).
 Proof.
-  intros p gs g w d p' o r G E HQS (HJS & HXs) Hbnd HTI.
+  intros p gs g w d p' o r G E HQS (HJS & HXs) Hbnd _ HTI.
   pose proof (SX_of_SXs _ _ _ _ _ HQS HXs) as HSX.
   pose proof HQS as [Hw Hd Hmode Hn Hconn Hgos HQ Hlast Hfr Hkinds Hpe Hsok].
   destruct Hw as (Hw1 & Hw2 & Hw3). destruct Hmode as (Hrun & Hsp & Hdf). destruct Hfr as (HfL & Hfc & Hfw).
@@ -242,21 +243,21 @@ Qed.
 
 (* ---------- the run theorems for sparse saving ---------- *)
 Definition sparse_run_timeline :=
-  run_timeline_g predict predict_idem predict_zero true CIs sparse_CI_step sparse_advance_timeline sparse_CI_frame sparse_CI_start.
+  run_timeline_g predict predict_idem predict_zero true CIs sparse_CI_step sparse_advance_timeline sparse_CI_frame.
 Definition sparse_confirmed_frames_use_held_inputs :=
   confirmed_frames_use_held_inputs_g predict predict_idem predict_zero true CIs sparse_CI_step sparse_advance_timeline sparse_CI_frame sparse_CI_start.
 Definition sparse_confirmed_frames_use_delivered_inputs :=
   confirmed_frames_use_delivered_inputs_g predict predict_idem predict_zero true CIs sparse_CI_step sparse_advance_timeline sparse_CI_frame sparse_CI_start.
 Definition sparse_held_inputs_step :=
-  held_inputs_step_g predict predict_idem predict_zero true CIs sparse_CI_step sparse_advance_timeline sparse_CI_frame sparse_CI_start.
+  held_inputs_step_g predict predict_idem predict_zero true CIs sparse_CI_step sparse_advance_timeline sparse_CI_frame.
 Definition sparse_host_broadcast_is_confirmed_timeline :=
   host_broadcast_is_confirmed_timeline_g predict predict_idem predict_zero true CIs sparse_CI_step sparse_advance_timeline sparse_CI_frame sparse_CI_start.
 
 Definition sparse_invariants_reachable :=
   invariants_reachable_g predict predict_idem predict_zero true CIs sparse_CI_step sparse_advance_timeline sparse_CI_frame sparse_CI_start.
 Definition sparse_requests_truthful_step :=
-  requests_truthful_step_g predict predict_idem predict_zero true CIs sparse_CI_step sparse_advance_timeline sparse_CI_frame sparse_CI_start.
+  requests_truthful_step_g predict predict_idem predict_zero true CIs sparse_CI_step sparse_advance_timeline sparse_CI_frame.
 Definition sparse_confirmed_frame_monotone :=
-  confirmed_frame_monotone_g predict predict_idem predict_zero true CIs sparse_CI_step sparse_advance_timeline sparse_CI_frame sparse_CI_start.
+  confirmed_frame_monotone_g predict predict_idem predict_zero true CIs sparse_CI_step sparse_advance_timeline sparse_CI_frame.
 
 End SparseTimeline.
